@@ -120,7 +120,14 @@ def run_history(rep, case, gen_rng=None, nops=0, observe=True):
         if gen_rng is not None:
             if step >= nops:
                 break
-            op = history.gen_op(gen_rng, tree)
+            motif = case.get("motif") or []
+            if step < len(motif):
+                # directed prefix: populate caches / install custom orders before the random part
+                op = history._gen(gen_rng, tree, motif[step]) or history.gen_op(gen_rng, tree)
+                if op["op"] == "sort_contraction_indices" and gen_rng.random() < 0.7:
+                    op.update(make_output_contig=False, priority=gen_rng.choice(["root", "size", "leaves", "flops"]))
+            else:
+                op = history.gen_op(gen_rng, tree)
             case["ops"].append(op)
         else:
             if step >= len(stored):
@@ -261,6 +268,17 @@ def run_shard(rep, tier, seed, shard, nshards):
         rng = rng_for(cs)
         case = gen_case(rng, cs, tier)
         nops = rng.randint(3, budget(tier, 12, 20))
+        if rng.random() < 0.3:
+            case["motif"] = rng.choice([
+                ["sort_contraction_indices", "print_contractions", "remove_ind"],
+                ["sort_contraction_indices", "print_contractions", "slice"],
+                ["print_contractions", "simulated_anneal"],
+                ["remove_ind", "remove_ind", "contract", "restore_ind"],
+                ["simulated_anneal", "remove_ind"],
+                ["remove_ind", "copy", "restore_ind"],
+                ["sort_contraction_indices", "contract", "subtree_reconfigure"],
+            ])
+            nops = max(nops, len(case["motif"]) + 2)
         net = gen.Net.from_json(case["net"])
         try:
             n_mut = run_history(rep, case, gen_rng=rng, nops=nops)
